@@ -192,9 +192,18 @@ thread_local! {
     pub static IN_TX: std::cell::Cell<bool> = std::cell::Cell::new(false);
 }
 
+thread_local! {
+    /// true while a monitor runs under catch_unwind (see driver): a panic there means the observed values were
+    /// inconsistent (e.g. a supply that grew on a burn underflows a subtraction) and is reported as a violation
+    pub static IN_MONITOR: std::cell::Cell<bool> = std::cell::Cell::new(false);
+    pub static LAST_PANIC: RefCell<String> = RefCell::new(String::new());
+}
+
 pub fn install_panic_hook() {
     std::panic::set_hook(Box::new(|info| {
-        if !IN_TX.with(|f| f.get()) {
+        if IN_MONITOR.with(|f| f.get()) {
+            LAST_PANIC.with(|p| *p.borrow_mut() = info.to_string());
+        } else if !IN_TX.with(|f| f.get()) {
             eprintln!("HARNESS PANIC: {}\n{}", info, std::backtrace::Backtrace::capture());
         }
     }));
